@@ -199,23 +199,66 @@ structure Rel (N : String → Prop) (p : α → Bool) (s s' : St α) : Prop wher
   grow : ∃ added : List (DomVar α), s'.domain = s.domain ++ added ∧ ∀ v ∈ added, v.usage = 1 ∧ isAux v.name
   nodup : (domNames s).Nodup → (domNames s').Nodup
   ok : StOK N p s → StOK N p s'
+  /-- the bound of a variable that is already declared never changes (`declareVariable` only writes the
+  entry of the fresh name). -/
+  bnd : ∀ x ∈ domNames s, lookupB s'.bounds x = lookupB s.bounds x
+
+theorem domNames_subset_of_grow {s s' : St α} {added : List (DomVar α)} (h : s'.domain = s.domain ++ added) :
+    ∀ x ∈ domNames s, x ∈ domNames s' := by
+  intro x hx
+  unfold domNames at *
+  rw [h, List.map_append]
+  exact List.mem_append_left _ hx
 
 theorem rel_isPre (N : String → Prop) (p : α → Bool) : IsPre (Rel (α := α) N p) where
-  refl s := ⟨⟨[], by simp, by simp⟩, id, id⟩
+  refl s := ⟨⟨[], by simp, by simp⟩, id, id, fun _ _ => rfl⟩
   trans := by
     intro a b c h1 h2
     obtain ⟨x, hx, hxa⟩ := h1.grow
     obtain ⟨y, hy, hya⟩ := h2.grow
-    refine ⟨⟨x ++ y, by rw [hy, hx, List.append_assoc], ?_⟩, fun h => h2.nodup (h1.nodup h), fun h => h2.ok (h1.ok h)⟩
-    intro v hv
-    rcases List.mem_append.mp hv with hv | hv
-    · exact hxa v hv
-    · exact hya v hv
+    refine ⟨⟨x ++ y, by rw [hy, hx, List.append_assoc], ?_⟩, fun h => h2.nodup (h1.nodup h),
+      fun h => h2.ok (h1.ok h), ?_⟩
+    · intro v hv
+      rcases List.mem_append.mp hv with hv | hv
+      · exact hxa v hv
+      · exact hya v hv
+    · intro n hn
+      rw [h2.bnd n (domNames_subset_of_grow hx n hn), h1.bnd n hn]
 
-/-- a state change that leaves the domain alone. -/
+/-- a state change that leaves the domain and the bounds map alone. -/
 theorem Rel.of_domain_eq {N : String → Prop} {p : α → Bool} {s s' : St α} (hd : s'.domain = s.domain)
-    (hok : StOK N p s → StOK N p s') : Rel N p s s' :=
-  ⟨⟨[], by simp [hd], by simp⟩, by unfold domNames; rw [hd]; exact id, hok⟩
+    (hb : s'.bounds = s.bounds) (hok : StOK N p s → StOK N p s') : Rel N p s s' :=
+  ⟨⟨[], by simp [hd], by simp⟩, by unfold domNames; rw [hd]; exact id, hok, fun _ _ => by rw [hb]⟩
+
+/-! ### the bounds map under `insert_variable` -/
+
+theorem lookupB_append_ne (m : BoundsMap α) (n x : String) (b : Bounds α) (h : x ≠ n) :
+    lookupB (m ++ [(n, b)]) x = lookupB m x := by
+  unfold lookupB
+  rw [List.find?_append]
+  cases hf : m.find? (fun q => q.1 == x) with
+  | some q => simp
+  | none =>
+    have : (n == x) = false := by simpa using (Ne.symm h)
+    simp [List.find?, this]
+
+theorem lookupB_replace_ne (m : BoundsMap α) (n x : String) (b : Bounds α) (h : x ≠ n) :
+    lookupB (m.map fun (q : String × Bounds α) => if q.1 == n then (q.1, b) else (q.1, q.2)) x = lookupB m x := by
+  unfold lookupB
+  induction m with
+  | nil => rfl
+  | cons q qs ih =>
+    obtain ⟨k, v⟩ := q
+    simp only [List.map_cons, List.find?_cons]
+    by_cases hk : (k == n) = true
+    · have hkn : k = n := by simpa using hk
+      have hkx : (k == x) = false := by rw [hkn]; simpa using (Ne.symm h)
+      simp only [hk, if_true, hkx]
+      exact ih
+    · simp only [hk, if_false, Bool.false_eq_true]
+      cases hkx : (k == x)
+      · exact ih
+      · rfl
 
 /-! ### the primitive actions -/
 
@@ -227,10 +270,17 @@ theorem declareVariable_sp {v : String} (hv : isAux v) (ty : VarType α) (s : St
   unfold declareVariable
   apply SpAt.get_bind
   split
-  · exact SpAt.fail
+  · exact SpAt.fail (rel_isPre _ _) trivial
   · rename_i hnot
+    have hfresh : ∀ x ∈ domNames s, x ≠ v := by
+      intro x hx hxv
+      apply hnot
+      simp only [domNames, List.mem_map] at hx
+      obtain ⟨d, hd, hdn⟩ := hx
+      simp only [List.any_eq_true, beq_iff_eq]
+      exact ⟨d, hd, hdn.trans hxv⟩
     refine SpAt.set ?_ trivial
-    refine ⟨⟨[_], rfl, ?_⟩, ?_, id⟩
+    refine ⟨⟨[_], rfl, ?_⟩, ?_, id, ?_⟩
     · intro x hx
       simp only [List.mem_singleton] at hx
       subst hx
@@ -241,18 +291,17 @@ theorem declareVariable_sp {v : String} (hv : isAux v) (ty : VarType α) (s : St
       intro a ha b hb
       simp only [List.mem_singleton] at hb
       subst hb
-      intro hab
-      subst hab
-      apply hnot
-      simp only [List.mem_map] at ha
-      obtain ⟨d, hd, hdn⟩ := ha
-      simp only [List.any_eq_true, beq_iff_eq]
-      exact ⟨d, hd, hdn⟩
+      exact hfresh a ha
+    · intro x hx
+      dsimp only
+      split
+      · exact lookupB_replace_ne _ _ _ _ (hfresh x hx)
+      · exact lookupB_append_ne _ _ _ _ (hfresh x hx)
 
 theorem addConstraint_sp {c : Constraint α} (hc : QOK N p c) (s : St α) :
     SpAt (Rel N p) s (addConstraint c) (fun _ => True) := by
   unfold addConstraint
-  refine SpAt.modify (Rel.of_domain_eq rfl ?_) trivial
+  refine SpAt.modify (Rel.of_domain_eq rfl rfl ?_) trivial
   intro hok
   refine ⟨?_, hok.2⟩
   intro c' hc'
@@ -264,9 +313,9 @@ theorem mkC_ok (hN : N "") {l r : Exp α} {c : Cmp} (hl : allLits p l = true) (h
     QOK N p (mkC l c r) := ⟨hN, hl, hr⟩
 
 /-- bumping a fresh-name counter (or any change that keeps queue, rows and domain). -/
-theorem Rel.counter {s s' : St α} (hd : s'.domain = s.domain) (hq : s'.queue = s.queue) (hr : s'.rows = s.rows) :
-    Rel N p s s' :=
-  Rel.of_domain_eq hd (by intro h; unfold StOK; rw [hq, hr]; exact h)
+theorem Rel.counter {s s' : St α} (hd : s'.domain = s.domain) (hb : s'.bounds = s.bounds)
+    (hq : s'.queue = s.queue) (hr : s'.rows = s.rows) : Rel N p s s' :=
+  Rel.of_domain_eq hd hb (by intro h; unfold StOK; rw [hq, hr]; exact h)
 
 end prims
 
@@ -402,14 +451,14 @@ elab "sp_step" : tactic => do
   let k ← spKind (← g.getType)
   let tac ← match k with
     | "pure" => `(tactic| (apply SpAt.pure (rel_isPre _ _)))
-    | "fail" => `(tactic| exact SpAt.fail)
+    | "fail" => `(tactic| exact SpAt.fail (rel_isPre _ _) (by first | trivial | exact ⟨_, rfl⟩))
     | "ite" => `(tactic| split)
     | "match" => `(tactic| split)
     | "let" => `(tactic| dsimp only)
     | "beta" => `(tactic| dsimp only)
     | "get" => `(tactic| (apply SpAt.get_bind))
-    | "set" => `(tactic| (refine SpAt.set_bind (rel_isPre _ _) (Rel.counter rfl rfl rfl) ?_))
-    | "set1" => `(tactic| (refine SpAt.set (Rel.counter rfl rfl rfl) trivial))
+    | "set" => `(tactic| (refine SpAt.set_bind (rel_isPre _ _) (Rel.counter rfl rfl rfl rfl) ?_))
+    | "set1" => `(tactic| (refine SpAt.set (Rel.counter rfl rfl rfl rfl) trivial))
     | "bind" => `(tactic| (apply SpAt.bind (rel_isPre _ _); rotate_left; intro _ _ _; rotate_right; sp_call))
     | "call" => `(tactic| sp_call)
     | _ => `(tactic| first | sp_aux | sp_side)
